@@ -94,7 +94,7 @@ def main():
             "kind_free_text": "single-process deterministic simulator: plan-as-JSON generator, SimFS/SimRaw raw devices with fault plans and delivery schedules, SimClock, seeded fan-out over forked workers, delta-debugging minimiser, replay",
         }],
         "checks": checks,
-        "notes": "See DESIGN.md. Exit 0 = held (possibly with KNOWN-FINDING lines), 1 = VIOLATION, 2 = HARNESS-ERROR. Env: VERIF_SEED, VERIF_WORKERS, VERIF_RUNS, VERIF_BUDGET_S, VERIF_REPO.",
+        "notes": "See DESIGN.md (section 12 is the as-built account). Exit 0 = held (possibly with KNOWN-FINDING lines), 1 = VIOLATION, 2 = HARNESS-ERROR. Env: VERIF_SEED, VERIF_WORKERS, VERIF_RUNS, VERIF_BUDGET_S, VERIF_REPO. Self-tests: ./check selftest determinism|fidelity|sensitivity|specificity (sensitivity: every patch under mutants/ and seeded/ must be caught; specificity: every property-preserving patch under benign/ must leave the checks silent; results in evidence/sensitivity.json and evidence/specificity.json).",
         "not_applicable": na,
     }
     with open(os.path.join(HERE, "MANIFEST.json"), "w") as f:
